@@ -76,7 +76,7 @@ fn lists(alpha: &[&'static str], max: usize) -> Vec<Vec<&'static str>> {
 pub fn run() -> i32 {
     let mut rep = Report::new(
         "fileset",
-        "every source list of length <= 3 over 7 spellings x every reference list of length <= 2 over 7 spellings, on a scratch tree with symlinks (listed explicitly, and to a file / a directory / an already listed file INSIDE a reference directory), a nested directory and a non-Slice file",
+        "every source list of length <= 3 over 8 spellings x every reference list of length <= 2 over 8 spellings (incl. a directory named `odd.slice` with a hidden file), on a scratch tree with symlinks (listed explicitly, and to a file / a directory / an already listed file INSIDE a reference directory), a nested directory and a non-Slice file",
     );
     let base = std::env::var("VERIF_SCRATCH").map(PathBuf::from).unwrap_or_else(|_| std::env::temp_dir());
     let root = base.join(format!("slicec_fileset_{}", std::process::id()));
@@ -86,6 +86,10 @@ pub fn run() -> i32 {
         fs::write(root.join(f), "module M\n").unwrap();
     }
     fs::write(root.join("dir/notes.txt"), "x").unwrap();
+    // a DIRECTORY whose name ends in .slice (a source: an error; a reference: walked like any directory), with a hidden file inside
+    fs::create_dir_all(root.join("odd.slice")).unwrap();
+    fs::write(root.join("odd.slice/inner.slice"), "module M\n").unwrap();
+    fs::write(root.join("odd.slice/.hidden.slice"), "module M\n").unwrap();
     // outside the tree the arguments name: reachable only through the links inside dir/
     fs::create_dir_all(root.join("elsewhere/deep")).unwrap();
     fs::write(root.join("elsewhere/far.slice"), "module M\n").unwrap();
@@ -102,8 +106,8 @@ pub fn run() -> i32 {
     fs::write(root.join("link.slice"), "module M\n").unwrap();
     std::env::set_current_dir(&root).unwrap();
 
-    let src_alpha = ["a.slice", "./a.slice", "link.slice", "b.slice", "dir/../b.slice", "missing.slice", "dir"];
-    let ref_alpha = ["a.slice", "dir", "./dir/sub", "dir/d.slice", "c.slice", "dir/notes.txt", "link.slice"];
+    let src_alpha = ["a.slice", "./a.slice", "link.slice", "b.slice", "dir/../b.slice", "missing.slice", "dir", "odd.slice"];
+    let ref_alpha = ["a.slice", "dir", "./dir/sub", "dir/d.slice", "c.slice", "dir/notes.txt", "link.slice", "odd.slice"];
     for sources in lists(&src_alpha, 3) {
         for references in lists(&ref_alpha, 2) {
             let (s_exp, s_bad) = expand(&sources, true);
